@@ -62,8 +62,9 @@ class FakeRequests:
     """behaviour: {"cap": max page size the server honours, "empties": positions of empty pages,
     "extra_links": bool, "empty_last": bool}"""
 
-    def __init__(self, docs, cap=1000, empties=(), extra_links=True, empty_last=False, base="/api/v1/"):
+    def __init__(self, docs, cap=1000, empties=(), extra_links=True, empty_last=False, base="/api/v1/", by_site=None):
         self.docs = docs
+        self.by_site = by_site  # optional {site name: documents}: the collection served depends on the site in the URL
         self.cap = cap
         self.empties = sorted(empties)
         self.extra_links = extra_links
@@ -87,6 +88,11 @@ class FakeRequests:
             mr = 25
         size = max(1, min(mr, self.cap))
         items = list(self.docs)
+        if self.by_site:
+            for site, ds in self.by_site.items():
+                if u.path.rstrip("/").endswith("/" + site) or ("/" + site + "/") in u.path:
+                    items = list(ds)
+                    break
         if "where" in q:
             try:
                 items = eval_where(items, q["where"][0])
